@@ -83,3 +83,19 @@ Example revert_restores_without_update_example :
   | Panic => False
   end.
 Proof. vm_compute. reflexivity. Qed.
+
+(** A handle opened inside a span that is later reverted still points to the dropped storage
+    object; using it after the revert and staging it publishes the reverted write again.  The
+    block-level theorems therefore need the discipline "handles of a reverted span are not used
+    afterwards" (the node's executor opens its handles per transaction, after the snapshot, and
+    drops them with the transaction). *)
+Theorem held_handle_resurrects_reverted_write :
+  let ops := [OSnap; OOpen 7; OSet 0 1 5; OStage 0; OOpen 7; ORollback 0; OSet 1 2 9; OStage 1]%N in
+  match run (sdb_new [] [] []) ops with
+  | Ok d => match alookup 7%N (d_cache d) with
+            | Some o => get_data d o 1%N = Ok (Some 5%N)      (* the write of key 1 was reverted *)
+            | None => False
+            end
+  | Panic => False
+  end.
+Proof. vm_compute. reflexivity. Qed.
